@@ -1313,41 +1313,74 @@ def iter_elem_ty(ty):
     return ga[0] if ga else ''
 
 
+def _known_iter(it):
+    return isinstance(it, Obj) and it.kind == 'iter' and (seq_items(it.data.get('seq')) is not None or 'chain' in it.data)
+
+
+def _iter_step(ex, st, it, back=False):
+    """advance a known iterator: returns list of (state, iterator_in_that_state, value or None when exhausted)"""
+    if 'chain' in it.data:
+        parts = it.data['chain']
+        idx = it.data.setdefault('chain_idx', 0)
+        while idx < len(parts):
+            sub = parts[idx]
+            outs = _iter_step(ex, st, sub, back)
+            if len(outs) == 1 and outs[0][0] is st and outs[0][2] is None:
+                idx += 1; it.data['chain_idx'] = idx
+                continue
+            res = []
+            for s2, _sub2, v in outs:
+                it2 = it if s2 is st else _relocate(ex, s2, it)
+                res.append((s2, it2, v))
+            return res
+        return [(st, it, None)]
+    items = seq_items(it.data.get('seq'))
+    pos = it.data['pos']; end = it.data['end'] if it.data['end'] is not None else len(items)
+    if pos >= end:
+        return [(st, it, None)]
+    if back:
+        c = items[end - 1]; it.data['end'] = end - 1
+    else:
+        c = items[pos]; it.data['pos'] = pos + 1
+    val = Ref(c) if it.data.get('by_ref') else c.val
+    if it.data.get('copied') and isinstance(val, Ref):
+        val = val.cell.val
+    f = it.data.get('map')
+    if f is not None:
+        holder = Obj('', 'h'); holder.fields[0] = Cell(it)
+        st.globals['__it'] = holder
+        res = []
+        for s2, v in ex.call_closure(st, f, [val]):
+            h2 = s2.globals.pop('__it', None)
+            res.append((s2, h2.fields[0].val if h2 is not None else it, v if s2.status == 'running' else None))
+        return res
+    return [(st, it, val)]
+
+
 @rule(r'^<.* as Iterator>::next$', r'^<.* as DoubleEndedIterator>::next_back$', prio=-1)
 def s_iter_next(ex, st, call):
     it = deref(call.args[0])
     if not isinstance(it, Obj):
         return NotImplemented
     back = call.c0.endswith('next_back')
-    inner = it.data.get('inner_iter')
-    if it.kind != 'iter' and inner is None:
+    if not _known_iter(it):
+        if it.kind == 'iter':
+            seq = it.data.get('seq')
+            res = ex.fresh(st, call.dst_ty, 'next')
+            st.emit(Ev('IT_NEXT_BACK' if back else 'IT_NEXT', obj=seq if isinstance(seq, Obj) else it, res=res, site=call.site))
+            return res
         # iterator-like object we did not create (e.g. lsm-tree iterators): event + havoc'd Option
         res = ex.fresh(st, call.dst_ty, 'next')
         st.emit(Ev('IT_NEXT_BACK' if back else 'IT_NEXT', obj=it, res=res, site=call.site))
         if isinstance(res, EnumV):
             res.data['from_iter'] = it
         return res
-    seq = it.data.get('seq')
-    items = seq_items(seq)
-    if items is None:
-        res = ex.fresh(st, call.dst_ty, 'next')
-        st.emit(Ev('IT_NEXT_BACK' if back else 'IT_NEXT', obj=seq if isinstance(seq, Obj) else it, res=res, site=call.site))
-        return res
-    pos = it.data['pos']; end = it.data['end'] if it.data['end'] is not None else len(items)
-    if pos >= end:
-        return ex.mk_enum(call.dst_ty, 'None')
-    if back:
-        c = items[end - 1]; it.data['end'] = end - 1
-    else:
-        c = items[pos]; it.data['pos'] = pos + 1
-    val = Ref(c) if it.data.get('by_ref') else c.val
-    f = it.data.get('map')
-    if f is not None:
-        out = []
-        for s2, v in ex.call_closure(st, f, [val]):
-            out.append((s2, ex.mk_enum(call.dst_ty, 'Some', [v])) if s2.status == 'running' else (s2, None))
-        return out
-    return ex.mk_enum(call.dst_ty, 'Some', [val])
+    out = []
+    for s2, _it2, v in _iter_step(ex, st, it, back):
+        if s2.status != 'running':
+            out.append((s2, None)); continue
+        out.append((s2, ex.mk_enum(call.dst_ty, 'None') if v is None else ex.mk_enum(call.dst_ty, 'Some', [v])))
+    return out
 
 
 @rule(r'^<.* as Iterator>::(map|filter|filter_map|flat_map|enumerate|rev|take|skip|cloned|copied|peekable|chain|zip|flatten|inspect|map_while|take_while|skip_while|fuse|by_ref)$',
@@ -1355,6 +1388,18 @@ def s_iter_next(ex, st, call):
 def s_iter_adapt(ex, st, call):
     kind = call.c0.rsplit('::', 1)[-1]
     it = deref(call.args[0])
+    if kind == 'chain' and _known_iter(it):
+        other = deref(call.args[1])
+        if isinstance(other, Obj) and other.kind != 'iter' and seq_items(other) is not None:
+            other = mk_iter(ex, st, '', other, isinstance(call.args[1], Ref))
+        if _known_iter(other):
+            n = Obj(call.dst_ty, 'chain', 'iter'); n.data['chain'] = [it, other]; n.data['chain_idx'] = 0
+            return n
+    if kind in ('copied', 'cloned') and _known_iter(it) and 'chain' not in it.data and it.data.get('map') is None:
+        items_ = seq_items(it.data['seq'])
+        n = mk_iter(ex, st, call.dst_ty, it.data['seq'], it.data.get('by_ref')); n.data['pos'] = it.data['pos']; n.data['end'] = it.data['end']
+        n.data['copied'] = True
+        return n
     if isinstance(it, Obj) and it.kind == 'iter' and seq_items(it.data.get('seq')) is not None:
         items = seq_items(it.data['seq'])
         pos, end = it.data['pos'], it.data['end'] if it.data['end'] is not None else len(items)
@@ -1372,6 +1417,7 @@ def s_iter_adapt(ex, st, call):
             return mk_iter(ex, st, call.dst_ty, mk_seq('', cells), False)
         if kind == 'map' and it.data.get('map') is None:
             n = mk_iter(ex, st, call.dst_ty, mk_seq('', live), by_ref); n.data['map'] = call.args[1]
+            n.data['copied'] = it.data.get('copied')
             return n
         if kind in ('by_ref',):
             return call.args[0]
@@ -2494,6 +2540,9 @@ def s_box_into_vec(ex, st, call):
 @rule(r'^<Vec<.*> as Extend<.*>>::extend$')
 def s_vec_extend(ex, st, call):
     v = deref(call.args[0]); src = deref(call.args[1])
+    if isinstance(v, Obj) and v.kind == 'bytes' and 'segs' in v.data and 'items' not in v.data and isinstance(src, Obj) and 'segs' in src.data:
+        v.data['segs'].extend(src.data['segs'])
+        return ex.unit()
     if isinstance(v, Obj) and 'items' in v.data and isinstance(src, Obj):
         if src.kind == 'array' and src.data.get('len') is not None:
             v.data['items'].extend(src.fields[('i', i)] for i in range(src.data['len']))
